@@ -74,6 +74,8 @@ def prepare(cfg):
             N[slot] = 4
         elif kind == 'int':
             N[slot] = 4
+        elif kind == 'fail':
+            N[slot] = 3
 
 
 def revealing_translate(msgid, domain=None, mapping=None, context=None, target_language=None, default=None):
@@ -97,9 +99,26 @@ def bind(ints, bools):
             b[name] = ints[slot]
         elif kind == 'len':
             b[name] = list(range(pick([0, 1, 2, 3], ints[slot])))
+        elif kind == 'fail':
+            # evaluation point L(name): 0 succeeds, 1 raises ValueError, 2 raises a custom exception
+            b.setdefault('__outs__', {})[name] = ints[slot]
     if STATE.get('lib') is not None:
         b['lib'] = STATE['lib']
+    outs = b.pop('__outs__', None)
+    if outs is not None:
+        def L(k):
+            o = outs.get(k, 0)
+            if o == 1:
+                raise ValueError('boom%d' % k)
+            if o == 2:
+                raise CustomFailure('boom%d' % k)
+            return 'v%d' % k
+        b['L'] = L
     return b
+
+
+class CustomFailure(Exception):
+    pass
 
 
 def run(tpl, b):
@@ -119,7 +138,7 @@ def H(i0: int, i1: int, i2: int, i3: int, b0: bool, b1: bool, b2: bool, b3: bool
     """
     ra = run(STATE['a'], bind((i0, i1, i2, i3), (b0, b1, b2, b3)))
     rb = run(STATE['b'], bind((i0, i1, i2, i3), (b0, b1, b2, b3)))
-    ok = ra == rb and ra[0] == 'ok'
+    ok = ra == rb and (ra[0] == 'ok' or bool(CFG.get('allow_exc')))
     return (not ok) if CFG.get('negate') else ok
 
 
